@@ -52,6 +52,9 @@ struct Planted {
     after: Vec<(String, bool)>,
     /// false: the streaming model does not apply (unique constraints, non-literal maps)
     modelled: bool,
+    /// unique-constraint bookkeeping to probe through Cypher after the failed statement:
+    /// (label, key, values) — `CREATE (:L {k: v})` must succeed iff no live node holds v under L
+    cons_probe: Vec<(u32, u32, Vec<i64>)>,
 }
 
 fn s(v: &str) -> Ex {
@@ -97,7 +100,7 @@ fn gen_case(rng: &mut Rng, n: usize, pos: usize, which: u64) -> Planted {
         0 | 1 => {
             let kind = if which == 0 { Kind::Div0 } else { Kind::Type };
             let st = St { cls: vec![Cl::Unwind(Ex::List(poisoned_list(rng, n, pos, kind)), 0), Cl::Create(vec![CPath { a: NPat { props: vec![(0, fallible(kind)), (1, Ex::Var(0))], ..l1.clone() }, seg: None }])], ret: None };
-            Planted { setup, st, clause: "create", kind, pos, n, constrained: false, indexed, after: vec![], modelled: true }
+            Planted { setup, st, clause: "create", kind, pos, n, constrained: false, indexed, after: vec![], modelled: true, cons_probe: vec![] }
         }
         // CREATE path, failure in the relationship property
         2 => {
@@ -108,13 +111,13 @@ fn gen_case(rng: &mut Rng, n: usize, pos: usize, which: u64) -> Planted {
                 ],
                 ret: None,
             };
-            Planted { setup, st, clause: "createpath", kind: Kind::Div0, pos, n, constrained: false, indexed, after: vec![], modelled: true }
+            Planted { setup, st, clause: "createpath", kind: Kind::Div0, pos, n, constrained: false, indexed, after: vec![], modelled: true, cons_probe: vec![] }
         }
         // MERGE
         3 | 4 => {
             let kind = if which == 3 { Kind::Div0 } else { Kind::Type };
             let st = St { cls: vec![Cl::Unwind(Ex::List(poisoned_list(rng, n, pos, kind)), 0), Cl::Merge(NPat { props: vec![(0, fallible(kind))], ..l1.clone() }, vec![], vec![])], ret: None };
-            Planted { setup, st, clause: "merge", kind, pos, n, constrained: false, indexed, after: vec![], modelled: true }
+            Planted { setup, st, clause: "merge", kind, pos, n, constrained: false, indexed, after: vec![], modelled: true, cons_probe: vec![] }
         }
         // SET on one matched node per row
         5 | 6 => {
@@ -130,7 +133,7 @@ fn gen_case(rng: &mut Rng, n: usize, pos: usize, which: u64) -> Planted {
                 cls: vec![Cl::Unwind(Ex::List(rows), 0), Cl::MatchN(1, vec![1], vec![]), Cl::Filter(bin("eq", Ex::Prop(1, 2), Ex::Prop(0, 0))), Cl::Set(vec![SetItem::Prop(1, 0, rhs)])],
                 ret: None,
             };
-            Planted { setup, st, clause: "set", kind, pos, n, constrained: false, indexed, after: vec![], modelled: true }
+            Planted { setup, st, clause: "set", kind, pos, n, constrained: false, indexed, after: vec![], modelled: true, cons_probe: vec![] }
         }
         // duplicate value under a unique constraint: CREATE
         7 => {
@@ -142,7 +145,7 @@ fn gen_case(rng: &mut Rng, n: usize, pos: usize, which: u64) -> Planted {
                 vals[pos] = vals[rng.usize(pos)];
             }
             let st = St { cls: vec![Cl::Unwind(Ex::List(vals.iter().map(|v| int(*v)).collect()), 0), Cl::Create(vec![CPath { a: NPat { var: Some(1), labels: vec![0], props: vec![(0, Ex::Var(0))] }, seg: None }])], ret: None };
-            Planted { setup, st, clause: "create", kind: Kind::Dup, pos, n, constrained: true, indexed, after: vec![], modelled: true }
+            Planted { setup, st, clause: "create", kind: Kind::Dup, pos, n, constrained: true, indexed, after: vec![], modelled: true, cons_probe: vec![] }
         }
         // duplicate value under a unique constraint: SET
         8 => {
@@ -162,7 +165,7 @@ fn gen_case(rng: &mut Rng, n: usize, pos: usize, which: u64) -> Planted {
                 ],
                 ret: None,
             };
-            Planted { setup, st, clause: "set", kind: Kind::Dup, pos, n, constrained: true, indexed, after: vec![], modelled: true }
+            Planted { setup, st, clause: "set", kind: Kind::Dup, pos, n, constrained: true, indexed, after: vec![], modelled: true, cons_probe: vec![] }
         }
         // --- round 2: shapes a small edit of the write operators' clean-up could break unseen
         // bound start node, new end node, failure in the relationship property (after the end node was built)
@@ -181,7 +184,7 @@ fn gen_case(rng: &mut Rng, n: usize, pos: usize, which: u64) -> Planted {
                 ],
                 ret: None,
             };
-            Planted { setup, st, clause: "createfrommatch", kind: Kind::Div0, pos, n, constrained: false, indexed, after: vec![], modelled: true }
+            Planted { setup, st, clause: "createfrommatch", kind: Kind::Div0, pos, n, constrained: false, indexed, after: vec![], modelled: true, cons_probe: vec![] }
         }
         // two patterns in one CREATE, the second one fails (the first pattern's node must go too)
         11 => {
@@ -192,12 +195,12 @@ fn gen_case(rng: &mut Rng, n: usize, pos: usize, which: u64) -> Planted {
                 ],
                 ret: None,
             };
-            Planted { setup, st, clause: "create2", kind: Kind::Div0, pos, n, constrained: false, indexed, after: vec![], modelled: true }
+            Planted { setup, st, clause: "create2", kind: Kind::Div0, pos, n, constrained: false, indexed, after: vec![], modelled: true, cons_probe: vec![] }
         }
         // MERGE whose ON CREATE SET fails after the node was created
         12 => {
             let st = St { cls: vec![Cl::Unwind(Ex::List(poisoned_list(rng, n, pos, Kind::Div0)), 0), Cl::Merge(NPat { props: vec![(0, bin("add", Ex::Var(0), int(100 + pos as i64 * 10 + n as i64)))], ..l1.clone() }, vec![SetItem::Prop(1, 1, fallible(Kind::Div0))], vec![])], ret: None };
-            Planted { setup, st, clause: "mergeoncreate", kind: Kind::Div0, pos, n, constrained: false, indexed, after: vec![], modelled: true }
+            Planted { setup, st, clause: "mergeoncreate", kind: Kind::Div0, pos, n, constrained: false, indexed, after: vec![], modelled: true, cons_probe: vec![] }
         }
         // SET with two items, the second violates the unique constraint after the first was applied
         13 => {
@@ -217,7 +220,7 @@ fn gen_case(rng: &mut Rng, n: usize, pos: usize, which: u64) -> Planted {
                 ],
                 ret: None,
             };
-            Planted { setup, st, clause: "set2", kind: Kind::Dup, pos, n, constrained: true, indexed, after: vec![], modelled: true }
+            Planted { setup, st, clause: "set2", kind: Kind::Dup, pos, n, constrained: true, indexed, after: vec![], modelled: true, cons_probe: vec![] }
         }
         // created path with constrained node values, failure afterwards in the relationship property:
         // the taken-back nodes must also release their unique values (probed after the statement)
@@ -231,7 +234,7 @@ fn gen_case(rng: &mut Rng, n: usize, pos: usize, which: u64) -> Planted {
                 ],
                 ret: None,
             };
-            Planted { setup, st, clause: "createpath-constrained", kind: Kind::Div0, pos, n, constrained: true, indexed, after: vec![(format!("CREATE (:L0 {{k0: {}}})", 70 + pos), true)], modelled: true }
+            Planted { setup, st, clause: "createpath-constrained", kind: Kind::Div0, pos, n, constrained: true, indexed, after: vec![(format!("CREATE (:L0 {{k0: {}}})", 70 + pos), true)], modelled: true, cons_probe: vec![] }
         }
         // DELETE of a connected node at row `pos`
         _ => {
@@ -248,7 +251,7 @@ fn gen_case(rng: &mut Rng, n: usize, pos: usize, which: u64) -> Planted {
                 ret: None,
             };
             let _ = constrained;
-            Planted { setup, st, clause: "delete", kind: Kind::Connected, pos, n, constrained: false, indexed, after: vec![], modelled: true }
+            Planted { setup, st, clause: "delete", kind: Kind::Connected, pos, n, constrained: false, indexed, after: vec![], modelled: true, cons_probe: vec![] }
         }
     }
 }
@@ -379,7 +382,7 @@ fn gen_multi(_rng: &mut Rng, fam: u64, constrained: bool, m: usize, j: usize, ki
         after.push((format!("CREATE (:L0 {{k0: {}}})", 500), true)); // 200 + 300 must not be held
         after.push((format!("CREATE (:L0 {{k0: {}}})", 200), false)); // the node still holds 200
     }
-    Planted { setup, st: St { cls, ret: None }, clause, kind, pos, n, constrained, indexed, after, modelled: !constrained && fam != 1 }
+    Planted { setup, st: St { cls, ret: None }, clause, kind, pos, n, constrained, indexed, after, modelled: !constrained && fam != 1, cons_probe: vec![] }
 }
 
 /// What exactly a failing row had already made: CREATE of 1-3 relationships per row between nodes that
@@ -419,7 +422,7 @@ fn gen_rel(rng: &mut Rng, pat: u64, n: usize, pos: usize) -> Planted {
         ],
         ret: None,
     };
-    Planted { setup, st, clause, kind: Kind::Div0, pos, n, constrained: false, indexed: false, after: vec![], modelled: true }
+    Planted { setup, st, clause, kind: Kind::Div0, pos, n, constrained: false, indexed: false, after: vec![], modelled: true, cons_probe: vec![] }
 }
 
 /// CREATE without any row source (CreateNodeOperator / CreateNodesAndEdgesOperator): the one "row" makes several
@@ -433,7 +436,68 @@ fn gen_rowless(which: u64) -> Planted {
         2 => (vec![CPath { a: n0(7), seg: None }, CPath { a: n0(8), seg: None }, CPath { a: n0(1), seg: None }], "rowless-create-3nodes"),
         _ => (vec![CPath { a: n0(1), seg: None }, CPath { a: n0(9), seg: None }], "rowless-create-first-fails"),
     };
-    Planted { setup, st: St { cls: vec![Cl::Create(paths)], ret: None }, clause, kind: Kind::Dup, pos: 0, n: 1, constrained: true, indexed: false, after: vec![("CREATE (:L0 {k0: 5})".into(), true)], modelled: false }
+    Planted { setup, st: St { cls: vec![Cl::Create(paths)], ret: None }, clause, kind: Kind::Dup, pos: 0, n: 1, constrained: true, indexed: false, after: vec![("CREATE (:L0 {k0: 5})".into(), true)], modelled: false, cons_probe: vec![] }
+}
+
+/// Take-back must not leave index / constraint bookkeeping behind.  Two unique constraints over the SAME key on two
+/// labels (a value free under one label and taken under the other, multi-label nodes), or over two keys on one label.
+fn gen_cons(which: u64, flip: bool) -> Planted {
+    let (free, taken) = if flip { (1u32, 0u32) } else { (0u32, 1u32) };
+    let mut setup: Vec<String> = vec![];
+    let two_labels = which != 5;
+    if two_labels {
+        setup.push("CREATE CONSTRAINT ON (n:L0) ASSERT n.k0 IS UNIQUE".into());
+        setup.push("CREATE CONSTRAINT ON (n:L1) ASSERT n.k0 IS UNIQUE".into());
+        setup.push(format!("CREATE (:L{} {{k0: 77}})", taken)); // 77 is taken under `taken`, free under `free`
+    } else {
+        setup.push("CREATE CONSTRAINT ON (n:L0) ASSERT n.k0 IS UNIQUE".into());
+        setup.push("CREATE CONSTRAINT ON (n:L0) ASSERT n.k1 IS UNIQUE".into());
+        setup.push("CREATE (:L0 {k0: 1, k1: 88})".into());
+    }
+    let both = NPat { var: Some(1), labels: if flip { vec![1, 0] } else { vec![0, 1] }, props: vec![(0, int(77))] };
+    let (cls, clause): (Vec<Cl>, &'static str) = match which {
+        0 => (vec![Cl::Create(vec![CPath { a: both, seg: None }])], "cons2-create-rowless"),
+        1 => (vec![Cl::Unwind(Ex::List(vec![int(77)]), 0), Cl::Create(vec![CPath { a: NPat { props: vec![(0, Ex::Var(0))], ..both }, seg: None }])], "cons2-create-unwind"),
+        2 => (vec![Cl::Merge(both, vec![], vec![])], "cons2-merge"),
+        3 => {
+            setup.push("CREATE (:L0:L1 {k0: 5})".into());
+            (vec![Cl::MatchN(1, vec![0, 1], vec![]), Cl::Set(vec![SetItem::Prop(1, 0, int(77))])], "cons2-set")
+        }
+        4 => {
+            // a path whose second node is the refused one: the first node (holding 60 under both labels) is taken back
+            let first = NPat { var: Some(2), labels: vec![0, 1], props: vec![(0, int(60))] };
+            (vec![Cl::Unwind(Ex::List(vec![int(77)]), 0), Cl::Create(vec![CPath { a: first, seg: Some((1, vec![], true, NPat { props: vec![(0, Ex::Var(0))], ..both })) }])], "cons2-create-path")
+        }
+        _ => (vec![Cl::Create(vec![CPath { a: NPat { var: Some(1), labels: vec![0], props: vec![(0, int(55)), (1, int(88))] }, seg: None }])], "cons2keys-create"),
+    };
+    let cons_probe = if two_labels { vec![(0, 0, vec![77, 60, 5]), (1, 0, vec![77, 60, 5])] } else { vec![(0, 0, vec![55, 1]), (0, 1, vec![88, 55])] };
+    Planted { setup, st: St { cls, ret: None }, clause, kind: Kind::Dup, pos: 0, n: 1, constrained: true, indexed: false, after: vec![], modelled: false, cons_probe }
+}
+
+/// `CREATE (:L {k: v})` must succeed iff no live node holds v under L — asked after an id-recycling CREATE
+fn constraint_probe(store: &mut GraphStore, probes: &[(u32, u32, Vec<i64>)]) -> Option<String> {
+    if probes.is_empty() {
+        return None;
+    }
+    // whatever id the failed statement freed is taken by a bystander first
+    let _ = exec(store, "CREATE (:L2 {k7: 1}), (:L2 {k7: 2})", None);
+    for (l, k, vals) in probes {
+        for v in vals {
+            let d = parse_dump(&dump(store)).unwrap_or_default();
+            let held = d.nodes.iter().any(|(_, lt, ps)| lt.split('.').any(|x| x == l.to_string()) && ps.split(',').any(|p| p == format!("{}=I{}", k, v)));
+            let text = format!("CREATE (:L{} {{k{}: {}, k9: 424242}})", l, k, v);
+            let r = exec(store, &text, None).rows;
+            match (&r, held) {
+                (Err((_, m)), false) => return Some(format!("constraint-entry-leaked: `{}` is refused although no live node holds {} under :L{}(k{}): {}", text, v, l, k, m)),
+                (Ok(_), true) => return Some(format!("constraint-entry-lost: `{}` is accepted although a live node holds {} under :L{}(k{})", text, v, l, k)),
+                _ => {}
+            }
+            if r.is_ok() {
+                let _ = exec(store, "MATCH (n) WHERE n.k9 = 424242 DETACH DELETE n", None);
+            }
+        }
+    }
+    None
 }
 
 struct Done {
@@ -474,6 +538,9 @@ fn run_case(p: Planted) -> Done {
                 _ => {}
             }
         }
+    }
+    if probe.is_none() && o.rows.is_err() {
+        probe = constraint_probe(&mut store, &p.cons_probe);
     }
     let out = match &o.rows {
         Ok(rows) => Ok(rows_text(rows)),
@@ -586,6 +653,16 @@ fn main() {
                 }
             }
         }
+        // constraint bookkeeping after a take-back: 6 shapes x both roles of the two labels x 16 repetitions (the
+        // label set of a node is a HashSet: which constrained label is visited first differs from store to store)
+        for which in 0..6u64 {
+            for flip in [false, true] {
+                for _ in 0..16 {
+                    let d = run_case(gen_cons(which, flip));
+                    flat.push(Flat { setup: d.p.setup.join("; "), term: d.p.st.model(), text: d.text, clause: d.p.clause.to_string(), kind: d.p.kind.tag().to_string(), pos: d.p.pos, pre: d.pre, post: d.post, out: d.out, probe: d.probe, cons_same: d.cons_same, modelled: d.p.modelled });
+                }
+            }
+        }
         // relationships between pre-existing nodes etc.: pattern x (rows, failing row)
         for pat in 0..11u64 {
             for (n, pos) in [(1usize, 0usize), (3, 0), (3, 2), (2, 1)] {
@@ -690,7 +767,9 @@ fn main() {
             rep.spec_violation(&known, &sig, &format!("`{}` failed ({:?}) at row {} and left {} (was {})", f.text, f.out, f.pos, f.post, f.pre), &body);
         }
         if let (Some(p), true) = (&f.probe, sv == "ok") {
-            rep.spec_violation(&known, &format!("store-probe-diverges:{}:{}", f.clause, f.kind), &format!("after the failed `{}`: {}", f.text, p), &body);
+            let what = if p.starts_with("constraint-entry-leaked") { "constraint-entry-leaked" } else if p.starts_with("constraint-entry-lost") { "constraint-entry-lost" } else { f.kind.as_str() };
+            rep.count(&format!("spec_violation:store-probe-diverges:{}:{}", what, f.clause));
+            rep.spec_violation(&known, &format!("store-probe-diverges:{}:{}", what, f.clause), &format!("after the failed `{}`: {}", f.text, p), &body);
             continue;
         }
         if !f.cons_same {
